@@ -8,11 +8,28 @@ REQUIRES = ['Queue.Model', 'Queue.Spec']
 RULE = ('all seven queue classes x stimulus sets (1-4 stimuli; array / FixedWaveform / Cos2-gated-tone sources; lengths 0..12; trials 1..4; '
         'delays 0..5 samples, scalar or per-trial lists) x rates {1000, 25000, 97656.25, 195312.5} x start offsets {0, k/fs, off-grid (k+0.34)/fs}; request sequences: '
         'every composition of totals <= 7 (quick: for 3 configs; thorough: 12), requests ending exactly at / one before / one after every '
-        'waveform and delay boundary, then seeded random. No pause. Non-trivial: at least two requests and two trials generated.')
+        'waveform and delay boundary, then seeded random. No pause. Coverage-audit block: every way of constructing each class (class / `queues` dict; '
+        'fs by keyword / positionally / set_fs(); fs float / int / NumPy scalar; options explicit / defaulted / positional / truthy / NumPy int; '
+        'set_t0 skipped), sources as int64 / int16 / float32 / read-only / strided ndarrays and Python lists, trial counts int / NumPy int / float / 0, '
+        'delays None / int 0 / NumPy scalar / tuple / ndarray / iterator / generator / itertools.cycle / off-grid / half-sample / tiny negative / '
+        'negative (raises) / exhausted lists (raise), offsets negative / tiny / 1e9 samples, rates 0.75 Hz .. 10 MHz incl. 1e6/3, request sizes 0 / NumPy ints / '
+        'by keyword, pop_buffer(n, decrement=False), extend() with scalars / tuples / ndarrays / omitted delays, duration= and metadata= (incl. falsy), '
+        'clone() at every phase with the original running on, get_closest_key around every start, count_factories / get_info / get_max_duration / fs, '
+        'a second subscriber and the decrement event; the caller overwrites its sources, draws from its factories, and scribbles on every returned '
+        'buffer and get_info dict. Non-trivial: at least two requests and two trials generated.')
 TRUSTED = ['harness/queuecore.py (queue builder, uuid->index mapping, event recorder, decoder)',
            'np.random.randint choices of RandomSignalQueue are taken from the observed notifications (the model checks membership); '
-           'RandomState(seed).shuffle blocks are recomputed by the harness']
-ASSUMPTIONS = ['per-trial delay lists are at least as long as the number of trials drawn', 'insert() (always raises) and 2-D sources are outside the model']
+           'RandomState(seed).shuffle blocks are recomputed by the harness',
+           "no Coq counterpart (rules written in harness/queuecore.py): the 'decrement' notification (base-class decrement_key only, when trials remain), "
+           "get_max_duration(), get_info() fields, the fs property, metadata / decrement fields of a notification, clone() == its original",
+           'Queue/Model.v additions run_queue_x / pop_buffer_nd / closest_key / mk_entry_dur are correspondence-only (no theorem is about them); default '
+           'operations go through the proved pop_buffer / pause / resume']
+ASSUMPTIONS = ['per-trial delay lists shorter than the number of trials drawn raise StopIteration (model: error value); the oracle does not judge raising histories',
+               'request sizes >= 0; pop_buffer(n, decrement=False) only on stimuli that occupy at least one sample per trial (otherwise the code never returns)',
+               'outside every property: insert() (always raises), 2-D sources, extend() with sequences of the wrong length (raises KeyError from the message template), '
+               'a str / dict as extend(metadata=...), one delay iterator shared by several stimuli, the caller mutating a delay list or a notified info dict afterwards '
+               '(both are used by reference), callbacks that raise, manual accounting (pop_next / pop_key / decrement_key / remove_key / next_trial / cancel / requeue / '
+               'rewind_samples called directly), float request sizes (TypeError), fs changed after sources were added']
 FS = [1000.0, 25000.0, 97656.25, 195312.5]
 
 
